@@ -5,7 +5,9 @@
 //	stream 2 (selector 2, law 112): the real cache.SchedulerCache.AddBindTask called by concurrent
 //	    goroutines against nearly full nodes, replayed by the model in the order the cache
 //	    serialised the calls;
-//	stream 3 (selector 3, law 112): the same against the agent scheduler's cache.
+//	stream 3 (selector 3, law 112): the same against the agent scheduler's cache;
+//	stream 4 (selector 4, law 114): real preempt / reclaim / allocate / backfill action lists on
+//	    clusters with evictable victims (see evict.go).
 package main
 
 import (
@@ -22,6 +24,8 @@ func main() {
 				return runBind(in)
 			case 3:
 				return runAgent(in)
+			case 4:
+				return runEvictCycle(in)
 			}
 			return cyc.Run2(sel, in)
 		},
@@ -29,6 +33,9 @@ func main() {
 			switch sel {
 			case 2, 3:
 				bindLaws(in, law)
+				return
+			case 4:
+				evictLaws(law)
 				return
 			}
 			cyc.Laws(sel, in, got, func(lsel int, lin []int64, sig string) {
@@ -43,6 +50,7 @@ func main() {
 			cyc.Gen(rng, n, emit)
 			genBind(rng.Fork(), n, emit)
 			genAgent(rng.Fork(), n, emit)
+			genEvict(rng.Fork(), n, emit)
 		},
 	}
 	h.Main()
